@@ -371,4 +371,20 @@ def run(chk, tier):
     # every codec writes and reads in its own byte order only (shared with C03/C02)
     from . import c03
     c03.endianness_purity(chk, fx)
+    # the header length of a primitive element is PrimitiveValue::calculate_byte_len while the bytes come from the encoder: a value whose
+    # computed length differs from what is written cannot be read back (the reader cuts the value and misparses what follows) --
+    # the per-variant length formulas and the date/time widths of C04 are therefore part of this property too
+    from . import c04, report
+    sub = report.Check("C04", tier)
+    c04.run(sub, tier)
+    chk.rule("value-length-formulas", "PrimitiveValue::calculate_byte_len per variant and the DA/TM/DT width helpers agree with the bytes the encoder writes (instances of C04 unit-width / date-time-width)")
+    n_bl = 0
+    for inst in sub.instances:
+        if inst["rule"] in ("unit-width", "date-time-width"):
+            n_bl += 1
+            if inst["status"] == "ok":
+                chk.ok("value-length-formulas", inst["fn"], f"{inst['rule']}:{inst['instance']}", inst.get("detail"))
+            else:
+                chk.bad("value-length-formulas", inst["fn"], f"{inst['rule']}:{inst['instance']}", inst.get("expected"), inst.get("found"), loc=inst.get("loc"))
+    chk.floor("value-length-formulas", "length formula instances", n_bl, 20)
     chk.undecided.append("equality of values after write+read for arbitrary data sets; 'writing never fails' for well-formed data")
